@@ -178,6 +178,9 @@ pub struct Enc {
     pub full: bool,
     /// harness bookkeeping: tags a node injected by a fault generator (no effect on encoding)
     pub mark: bool,
+    /// writer presentation, masters inside a Full item only: given as Start, children, End in the enclosing item's child list
+    /// instead of as a nested Full
+    pub flat_in_full: bool,
 }
 
 #[derive(Clone, Debug, PartialEq, Eq, Hash)]
@@ -355,7 +358,26 @@ pub fn unroll(items: &[Flat]) -> Vec<Flat> {
 pub fn node_to_full(n: &Node) -> Flat {
     match &n.kind {
         NodeKind::Leaf(p) => Flat::Leaf(n.id, p.clone()),
-        NodeKind::Master(ch) => Flat::Full(n.id, ch.iter().map(node_to_full).collect()),
+        NodeKind::Master(ch) => {
+            let mut v = Vec::new();
+            for c in ch {
+                push_full_child(c, &mut v);
+            }
+            Flat::Full(n.id, v)
+        }
+    }
+}
+
+fn push_full_child(c: &Node, out: &mut Vec<Flat>) {
+    match &c.kind {
+        NodeKind::Master(gc) if c.enc.flat_in_full => {
+            out.push(Flat::Start(c.id));
+            for g in gc {
+                push_full_child(g, out);
+            }
+            out.push(Flat::End(c.id));
+        }
+        _ => out.push(node_to_full(c)),
     }
 }
 
